@@ -137,3 +137,21 @@ func (sq *Queue) VerifSortQueues() []*Queue {
 func (sq *Queue) VerifSortApplications(withPlaceholdersOnly bool) []*Application {
 	return sq.sortApplications(withPlaceholdersOnly)
 }
+
+// VerifExpireStateTimer models the armed state timer running out: the timer is stopped and the callback it would
+// run, bound to the state it was armed for, is returned. The caller may run it later, which is what happens when
+// the expired timer's goroutine has to wait for the application lock. Returns nil if no timer is armed.
+func (sa *Application) VerifExpireStateTimer() func() {
+	sa.Lock()
+	defer sa.Unlock()
+	if sa.stateTimer == nil {
+		return nil
+	}
+	sa.stateTimer.Stop()
+	cur := sa.stateMachine.Current()
+	event := ExpireApplication
+	if cur == Completing.String() {
+		event = CompleteApplication
+	}
+	return sa.timeoutStateTimer(cur, event)
+}
